@@ -5,12 +5,16 @@ PROP = dict(
     rule='generated build roots (stage skeleton + 4..25 extra files, directories, symlinks incl. chains/cycles/dangling, '
          'hard-link groups, device nodes, fifos/sockets, names with spaces, quotes, *, ?, [, $, backslash, UTF-8) x '
          '2..5 installed packages with CONTENTS (shared/absent/mistyped entries, RDEPEND/BDEPEND files) x requested '
-         'atoms x add-files script (add/omit, wildcards, quoting, errors) x -novdb/-emptydev/-nobdeps; every 12th '
+         'atoms x add-files script (add/omit, wildcards, quoting, errors; one case in five: `file NAME src=...` lines whose '
+         'source is a link of a hard-link group of 2..5 names that is only partly staged / partly outside the build root, '
+         'written as $$stageroot/... or as a host path, NAME before/between/after the group, with and without '
+         'mod=/uid=/gid=, two entries sharing a source) x -novdb/-emptydev/-nobdeps; every 12th '
          'case has a corrupted CONTENTS. The real stagemaker binary is run three times (-list stage, -list stage '
          '-files, -generate) and the archive is read back with archive/tar. Non-trivial: the selection is a proper '
          'non-empty subset of the installed packages or an add-files script is present; distinct by the whole input',
     explanation='theorems about Model.StageList (see docs/C06.md); per case Coq evaluates wf, model=obs, spec(obs)',
     assumptions=['the package selection printed by `stagemaker -list stage` is taken as an input (property C05)',
                  'paths that run through symlinked directories are outside the modelled domain (wf)',
-                 'the build root is not "/" itself'],
+                 'the build root is not "/" itself',
+                 'what lstat finds at the absolute host paths of src= options is taken as an input (i_ext)'],
 )
